@@ -378,6 +378,234 @@ def analyse_q(case, out):
     return None
 
 
+# ------------------------------------------------------------------ E3 cases (BLOCKING path of qrwlock) -----
+# harness/C06/qrw_e3b.cpp <-> coq/C06/C06_QE3B.v: lock(mode, timeout) / try_lock / unlock between OS-thread participants; every
+# atomic op on lock_state / spin._lock, every enqueue / notify / wake-up of the two condition variables is one scheduled point.
+def b_case(scripts, sched, bound=1500):
+    return 'B %d full | %s | %s' % (bound, ' | '.join(' '.join(x) if x else '-' for x in scripts), sched or '-')
+
+
+def _words(alpha, L):
+    out = ['']
+    for _ in range(L):
+        out = [w + a for w in out for a in alpha]
+    return out
+
+
+def gen_b_exhaustive(tier):
+    """small scenarios, every schedule word of length L over an alphabet of (participant, flavor) entries (the tail is completed
+    round-robin), plus every 4-segment schedule p^a q^b p^c q^d: the last holder's unlock() against a locker that is between its
+    failed fast path and `spin`, between `spin` and the enqueue, enqueued but not yet asleep; a writer that times out while
+    readers are parked; downgrade"""
+    q = tier == 'quick'
+    cs = []
+    two = [[['Lw', 'U'], ['Lw', 'U']], [['Lw', 'U'], ['Lr', 'U']], [['Lr', 'U'], ['Lw', 'U']]]
+    for scripts in two:
+        for w in _words('01', 9 if q else 13): cs.append(b_case(scripts, w))
+        R = range(0, 7) if q else range(0, 11)
+        for a in R:
+            for b in R:
+                for c in R:
+                    for d in ((0, 2) if q else (0, 1, 2, 4, 7)):
+                        cs.append(b_case(scripts, '0' * a + '1' * b + '0' * c + '1' * d))
+                        if a and not q: cs.append(b_case(scripts, '1' * a + '0' * b + '1' * c + '0' * d))
+    # timed locker against a holder that lets the clock pass its deadline (entry 3 = the timer of participant 1)
+    for scripts in ([['Lw', 'A', 'U'], ['Lw100', 'U']], [['Lw', 'A', 'U'], ['Lr100', 'U']], [['Lr', 'A', 'U'], ['Lw200', 'U']],
+                    [['Lw', 'A', 'U'], ['Lw0', 'U']]):
+        for w in _words('013', 6 if q else 9): cs.append(b_case(scripts, w))
+    # two waiters behind a writer (both cvs); two writers and a reader
+    for scripts in ([['Lw', 'U'], ['Lr', 'U'], ['Lr', 'U']], [['Lw', 'U'], ['Lw', 'U'], ['Lr', 'U']]):
+        for w in _words('012', 6 if q else 8): cs.append(b_case(scripts, w))
+    # downgrade: W hold, unlock, re-lock R; a timed writer and a reader parked behind the W hold; the writer's timer = entry 4
+    scripts = [['Lw', 'U', 'Lr', 'A', 'U'], ['Lw100', 'U'], ['Lr', 'U']]
+    for w in _words('0124', 5 if q else 7):
+        cs.append(b_case(scripts, w))
+        cs.append(b_case(scripts, '0' + '1' * 6 + '2' * 9 + w))      # both parked first, then every word
+    return cs
+
+
+def gen_b_random(rng, n=None):
+    n = n or rng.choice([2, 3, 3, 4, 4, 4])
+    tm = ['', '', '', '0', '100', '200', '300', '500']
+    scripts = []
+    for p in range(n):
+        ops = []
+        nsec = rng.randint(1, 3)
+        for j in range(nsec):
+            if rng.random() < .2: ops.append('A')
+            m = 'w' if rng.random() < .45 else 'r'
+            if rng.random() < .15: ops.append('T' + m)
+            else: ops.append('L' + m + rng.choice(tm))
+            if rng.random() < .3: ops.append('A')
+            if rng.random() < .04: ops.append('L' + rng.choice('rw') + rng.choice(tm))      # nested (may self-deadlock: compared only)
+            if j < nsec - 1 or rng.random() < .93: ops.append('U')
+            if rng.random() < .05: ops.append('U')
+        scripts.append(ops)
+    L = rng.randint(5, 90)
+    sched = ''
+    cur = rng.randrange(n)
+    pt = rng.choice([.05, .15, .3])
+    for _ in range(L):
+        r = rng.random()
+        if r < .3: cur = rng.randrange(n)
+        if rng.random() < pt and cur + n < 36: sched += B36[cur + n]       # the timer of `cur`
+        else: sched += B36[cur]
+    return b_case(scripts, sched)
+
+
+def analyse_b(case, out):
+    """the property evaluated on the implementation's step log alone (independent of the Coq model): exclusion and state-word
+    accounting; a failed lock/try_lock leaves the state word alone; lock() returns -1 only with ETIMEDOUT, on a timed call, after
+    its deadline on the harness clock; the unlock() that frees the lock wakes the head writer or else every parked reader before
+    it releases `spin`; at the end nobody is blocked while the lock is free.  returns [(kind, msg)], kind 'viol' | 'convoy'"""
+    if not out.startswith('steps='): return [('viol', 'failed run: %r' % out[:200])]
+    if 'E3ERROR' in out: return [('viol', out[:300])]
+    f = out.split(' LOG ')
+    head = dict(kv.split('=', 1) for kv in f[0].split(' ') if '=' in kv)
+    log = f[1].split(' ') if len(f) > 1 and f[1] else []
+    if ' livelock ' in out: return [('viol', 'step bound reached (a participant spins for ever?): %s' % f[0][:200])]
+    fails = []
+    V = lambda m: fails.append(('viol', m))
+    M = 1 << 64
+    sgn = lambda x: x - M if x >= (1 << 63) else x
+    scripts = [[o for o in x.strip().split() if o != '-'] for x in case.split('|')[1:-1]]
+    n = len(scripts)
+    val, holders, spin = 0, [], None
+    cv = {'cvu': [], 'cvs': []}
+    notified = set()
+    clock_at = [0]                     # clock_at[i] = harness clock before log entry i
+    lsmod = {}                         # index -> 'acq' | 'rel' : p's modifications of lock_state
+    lsobs = {}                         # index -> value of lock_state observed by that access
+    freed = {}                         # p -> True: p's unlock made the state 0 and has not run the wake-up yet
+    need_all = {}                      # p -> True: notify_one found no writer; all parked readers are to be woken
+    to_at = {}                         # index of blk.2 entries -> p
+    for i, e in enumerate(log):
+        w = e.split('.')
+        p, kind = int(w[0]), w[1]
+        clk = clock_at[-1]
+        if kind == 'tick': clk += 200
+        clock_at.append(clk)
+        if kind in ('ld', 'cas', 'st', 'fs', 'xg', 'fa') and w[2] == 'ls':
+            if kind == 'ld':
+                lsobs[i] = sgn(int(w[3]))
+                if lsobs[i] != val: V('load of lock_state saw %d, tracked value %d (%s)' % (lsobs[i], val, e))
+            elif kind == 'cas':
+                exp, des, ob, ok = sgn(int(w[3])), sgn(int(w[4])), sgn(int(w[5])), w[6] == '1'
+                lsobs[i] = ob
+                if ob != val: V('CAS observed %d, tracked value %d (%s)' % (ob, val, e))
+                if ok:
+                    if des == -1:
+                        if holders: V('participant %d took the WRITE lock while held by %s (step %d)' % (p, holders, i))
+                        holders.append((p, 'W'))
+                    elif des == exp + 1 and exp >= 0:
+                        if any(m == 'W' for _, m in holders): V('participant %d took a READ lock while a writer holds (step %d)' % (p, i))
+                        holders.append((p, 'R'))
+                    else: V('unexpected successful CAS %s' % e)
+                    val = des; lsmod[i] = 'acq'
+            elif kind == 'st':
+                if int(w[3]) != 0 or (p, 'W') not in holders: V('store to lock_state by a non-writer (%s)' % e)
+                else: holders.remove((p, 'W'))
+                if spin != p: V('__unlock_unique stores lock_state without holding spin (%s)' % e)
+                val = 0; lsmod[i] = 'rel'; freed[p] = True
+            elif kind == 'fs':
+                if sgn(int(w[4])) != val: V('fetch_sub saw %d, tracked %d (%s)' % (sgn(int(w[4])), val, e))
+                if (p, 'R') not in holders: V('fetch_sub by a non-reader (%s)' % e)
+                else: holders.remove((p, 'R'))
+                val -= 1; lsmod[i] = 'rel'
+                if val == 0: freed[p] = True
+            else:
+                V('unexpected access to lock_state: %s' % e); break
+            exp_val = -1 if any(m == 'W' for _, m in holders) else len(holders)
+            if val != exp_val: V('lock_state %d does not match the holders %s after step %d %s' % (val, holders, i, e))
+        elif kind in ('ld', 'xg', 'st') and w[2] == 'spin':
+            cur = 0 if spin is None else 1
+            if kind == 'xg':
+                if int(w[4]) != cur: V('xchg of spin saw %s, tracked %d' % (w[4], cur))
+                if int(w[4]) == 0: spin = p
+            elif kind == 'ld':
+                if int(w[3]) != cur: V('load of spin saw %s, tracked %d' % (w[3], cur))
+            else:
+                if spin != p: V('spin released by participant %d, owner %s (step %d)' % (p, spin, i))
+                if freed.get(p) and (cv['cvu'] or cv['cvs']):
+                    V('unlock() of participant %d freed the lock and released spin at step %d without notifying; parked: cv_unique %s cv_shared %s' % (p, i, cv['cvu'], cv['cvs']))
+                if need_all.get(p) and cv['cvs']:
+                    V('unlock() of participant %d found no waiting writer and released spin at step %d with readers %s still parked un-notified' % (p, i, cv['cvs']))
+                freed.pop(p, None); need_all.pop(p, None)
+                spin = None
+        elif kind == 'enq':
+            if spin != p: V('participant %d enqueues on %s without holding spin (step %d)' % (p, w[2], i))
+            cv[w[2]].append(p)
+        elif kind in ('n1', 'na'):
+            c, k = w[2], int(w[3])
+            if spin != p: V('participant %d notifies %s without holding spin (step %d)' % (p, c, i))
+            if k == 0:
+                if cv[c]: V('notify on %s found nobody, tracked queue %s (step %d)' % (c, cv[c], i))
+            else:
+                if not cv[c] or cv[c][0] != k - 1: V('notify on %s woke %d, tracked queue %s (step %d)' % (c, k - 1, cv[c], i))
+                if k - 1 in cv[c]: cv[c].remove(k - 1)
+                notified.add(k - 1)
+            if freed.get(p):
+                if c == 'cvu':
+                    freed.pop(p)
+                    if k == 0: need_all[p] = True
+                elif not cv['cvu']:
+                    freed.pop(p); need_all[p] = True
+            if c == 'cvs' and need_all.get(p) and not cv['cvs']: need_all.pop(p)
+        elif kind == 'blk':
+            v = int(w[2])
+            if v == 1:
+                if p not in notified: V('participant %d left its wait un-notified (step %d)' % (p, i))
+                notified.discard(p)
+            elif v == 2:
+                for c in cv.values():
+                    if p in c: c.remove(p)
+                to_at[i] = p
+        elif kind == 'tick': pass
+        else:
+            V('unexpected log entry %s' % e); break
+    if int(head['final']) != val: V('final lock_state %s, tracked %d' % (head['final'], val))
+    # per-op checks
+    wfailed = False
+    blocked = [] if head.get('blocked', '-') == '-' else [int(x) for x in head['blocked'].split(',')]
+    for p, rs in enumerate(head['res'].split('|')):
+        rs = [tuple(int(y) for y in x.split(':')) for x in rs.rstrip('*').split(',') if x != '']
+        for o, (r, en, k0, k1) in zip(scripts[p], rs):
+            mine = [i for i in range(k0, k1) if i < len(log) and log[i].startswith('%d.' % p)]
+            acq = [i for i in mine if lsmod.get(i) == 'acq']; rel = [i for i in mine if lsmod.get(i) == 'rel']
+            if o[0] in 'LT':
+                if r == 0:
+                    if len(acq) != 1 or rel: V('participant %d: %s returned 0 with %d acquisitions / %d releases in its steps %d..%d' % (p, o, len(acq), len(rel), k0, k1))
+                elif r == -1:
+                    if acq or rel: V('participant %d: failed %s modified the state word (steps %s)' % (p, o, acq + rel))
+                    obs = [lsobs[i] for i in mine if i in lsobs]
+                    if o[0] == 'T':
+                        if not obs or (o[1] == 'w' and obs[-1] == 0) or (o[1] == 'r' and 0 <= obs[-1] < 65536):
+                            V('participant %d: %s failed although it last saw the compatible state %s' % (p, o, obs[-1:]))
+                    else:
+                        if o[1] == 'w': wfailed = True
+                        tos = [i for i in mine if i in to_at]
+                        if en != ETIMEDOUT: V('participant %d: %s returned -1 with errno %d' % (p, o, en))
+                        elif len(o) <= 2: V('participant %d: %s (no timeout) returned ETIMEDOUT' % (p, o))
+                        elif not tos: V('participant %d: %s returned ETIMEDOUT but its wait did not time out' % (p, o))
+                        elif clock_at[tos[-1]] < clock_at[k0] + int(o[2:]):
+                            V('participant %d: %s issued at clock %d timed out at clock %d' % (p, o, clock_at[k0], clock_at[tos[-1]]))
+                else: V('participant %d: %s returned %d' % (p, o, r))
+            elif o[0] == 'U':
+                if r == 0:
+                    if len(rel) != 1 or acq: V('participant %d: unlock with %d releases in its steps' % (p, len(rel)))
+                elif r != -2: V('participant %d: unlock by a holder returned %d/%d' % (p, r, en))
+    if freed: V('unlock() of participant(s) %s freed the lock but never ran the wake-up' % sorted(freed))
+    # end of the run: everybody has finished or is blocked for ever
+    if blocked:
+        cvu = [] if head['cvu'] == '-' else head['cvu'].split(',')
+        cvs = [] if head['cvs'] == '-' else head['cvs'].split(',')
+        if val == 0:
+            V('participants %s are blocked for ever (cv_unique %s, cv_shared %s) although the lock is free (lost wake-up)' % (blocked, cvu, cvs))
+        elif val > 0 and cvs and not cvu:
+            fails.append(('convoy' if wfailed else 'viol', 'readers %s stay parked on cv_shared while only readers hold (state %d) and no writer waits' % (cvs, val)))
+    return fails
+
+
 # ------------------------------------------------------------------ oracle --------
 def analyse(case, out):
     """the property evaluated on the implementation's trace, independently of the Coq model.
@@ -594,8 +822,10 @@ class Check(DiffCheck):
         e2 = e2lib.build_impl(self.id, ['harness/C06/ops_rw.cpp', 'harness/C06/ops_qrw.cpp'], out=os.path.join(BUILD, 'bin', 'C06_e2'))
         e3, log = cxx_build(self.id, ['harness/C06/qrw_e3.cpp'], libphoton=True, out=os.path.join(BUILD, 'bin', 'C06_e3'))
         if not e3: raise RuntimeError(log[-3000:])
+        e3b, log = cxx_build(self.id, ['harness/C06/qrw_e3b.cpp'], libphoton=True, out=os.path.join(BUILD, 'bin', 'C06_e3b'))
+        if not e3b: raise RuntimeError(log[-3000:])
         disp = os.path.join(BUILD, 'bin', 'C06_impl')
-        open(disp, 'w').write('#!/bin/sh\nexec python3 %s %s %s "$1"\n' % (os.path.join(VERIF, 'harness', 'C06', 'dispatch.py'), e2, e3))
+        open(disp, 'w').write('#!/bin/sh\nexec python3 %s %s %s %s "$1"\n' % (os.path.join(VERIF, 'harness', 'C06', 'dispatch.py'), e2, e3, e3b))
         os.chmod(disp, 0o755)
         return disp
 
@@ -614,6 +844,10 @@ class Check(DiffCheck):
         cs += gen_q_exhaustive(tier)
         for i in range(1500 if tier == 'quick' else 40000):
             cs.append(gen_q_random(rng))
+        # E3 on the BLOCKING path of qrwlock (do_lock / try_wake / cv_unique / cv_shared between OS threads)
+        cs += gen_b_exhaustive(tier)
+        for i in range(2000 if tier == 'quick' else 60000):
+            cs.append(gen_b_random(rng))
         return list(dict.fromkeys(cs))
 
     def canon(self, line):
@@ -621,6 +855,9 @@ class Check(DiffCheck):
         return self._last
 
     def nontrivial(self, case):
+        if case.startswith('B'):
+            sc = [x.split() for x in case.split('|')[1:-1]]
+            return sum(1 for x in sc if any(o[0] in 'LT' for o in x)) >= 2 and any(o[:2] in ('Lw', 'Tw') for x in sc for o in x)
         if case.startswith('Q'):
             sc = [x.split() for x in case.split('|')[1:-1]]
             return sum(1 for x in sc if 'w' in x or 'r' in x) >= 2 and any('w' in x for x in sc)
@@ -637,6 +874,9 @@ class Check(DiffCheck):
 
     def category(self, case):
         if case.startswith('Q'): return 'Q:%dp' % (len(case.split('|')) - 2)
+        if case.startswith('B'):
+            timed = any(len(o) > 2 and o[0] == 'L' for x in case.split('|')[1:-1] for o in x.split())
+            return 'B:%dp:%s' % (len(case.split('|')) - 2, 'timed' if timed else 'untimed')
         decls, th = e2lib.parse_case(case)
         ops = [o[0] for t in th for o in t]
         kind = 'q' if any(d[0] == 'qrwlock' for d in decls) and not any(d[0] == 'rwlock' for d in decls) else 'rw' if not any(d[0] == 'qrwlock' for d in decls) else 'mix'
@@ -645,7 +885,7 @@ class Check(DiffCheck):
 
     def oracle(self, case, out):
         if case.startswith('Q'): return analyse_q(case, out)
-        a = analyse(case, out)
+        a = analyse_b(case, out) if case.startswith('B') else analyse(case, out)
         v = [x for x in a if x[0] == 'viol']
         return v[0][1] if v else (a[0][1] if a else None)
 
@@ -654,12 +894,12 @@ class Check(DiffCheck):
         # immediately before this) stashed it.  A case is in the class only if EVERY failure the oracle
         # sees in it has exactly the shape of scenario (a) (notes/C06.md, finding C06-convoy).
         if case.startswith('Q') or self._last is None: return None
-        a = analyse(case, self._last)
+        a = analyse_b(case, self._last) if case.startswith('B') else analyse(case, self._last)
         if a and all(k == 'convoy' for k, _ in a): return 'C06-convoy'
         return None
 
     def neighbours(self, case, rng):
-        if case.startswith('Q'): return []
+        if case.startswith('Q') or case.startswith('B'): return []
         d, th = e2lib.parse_case(case)
         out = []
         for k in range(len(th)):
